@@ -17,23 +17,25 @@ theorem mem_keepLast {l : List Entry} {e : Entry} (h : e ∈ keepLast l) : e ∈
 
 theorem ctxStep_ok {km : List (String × String)} {feat pre : String} {kind : Kind} {c k : String} {names : List String}
     {entries : List Entry} {st st' : CtxFeature} (h : ctxStep km feat pre kind c k names entries st = .ok st') :
-    st'.refs = st.refs ++ [⟨feat, kind, keepLast entries⟩] ∧ k ≠ "" ∧ ∃ cls, alookup k km = some cls := by
+    st' = st ∨ (st'.refs = st.refs ++ [⟨feat, kind, keepLast entries⟩] ∧ k ≠ "" ∧ ∃ cls, alookup k km = some cls) := by
   unfold ctxStep at h
-  cases hs : splitCtx c with
-  | error e => rw [hs] at h; simp at h
-  | ok ba =>
-    rw [hs] at h
+  cases hc : ctxClass km k with
+  | none => rw [hc] at h; simp only [Except.ok.injEq] at h; exact Or.inl h.symm
+  | some cls =>
+    rw [hc] at h
     simp only at h
-    by_cases hk : (k == "") = true
-    · simp [hk] at h
-    · simp only [hk, Bool.false_eq_true, if_false] at h
-      cases hl : alookup k km with
-      | none => rw [hl] at h; simp at h
-      | some cls =>
-        rw [hl] at h
-        simp only [Except.ok.injEq] at h
-        subst h
-        exact ⟨rfl, by simpa using hk, cls, rfl⟩
+    cases hs : splitCtx c with
+    | error e => rw [hs] at h; simp at h
+    | ok ba =>
+      rw [hs] at h
+      simp only [Except.ok.injEq] at h
+      subst h
+      right
+      unfold ctxClass at hc
+      by_cases hk : (k == "") = true
+      · simp [hk] at hc
+      · simp only [hk, Bool.false_eq_true, if_false] at hc
+        exact ⟨rfl, by simpa using hk, cls, hc⟩
 
 /-- what the entries of the referenced lookups of one destination look like -/
 def RefOK (al : AList) (km : List (String × String)) (d : Dest) (atts : List (String × String × NA)) (L : Lookup) : Prop :=
@@ -63,8 +65,11 @@ theorem ctxDest_refs {al : AList} {km : List (String × String)} {feat pre : Str
     | error e => rw [hstep, foldl_ctxWorkStep_error] at h; simp at h
     | ok s1 =>
       rw [hstep] at h
-      obtain ⟨hrefs, hkne, cls, hcls⟩ := ctxStep_ok (by simpa [ctxWorkStep] using hstep)
       intro L hL
+      rcases ctxStep_ok (show ctxStep km feat pre (kindOfDest d) ck.1 ck.2 ((ctxSel atts ck).map (·.2.1))
+        ((ctxSel atts ck).map (fun t => ctxEntry al km d t.2.1 t.2.2)) st = .ok s1 by simpa [ctxWorkStep] using hstep)
+        with hsame | ⟨hrefs, hkne, cls, hcls⟩
+      · subst hsame; exact ih h L hL
       rcases ih h L hL with h1 | h1
       · rw [hrefs] at h1
         rcases mem_append.mp h1 with h2 | h2
